@@ -210,6 +210,49 @@ func genMeta(t *testing.T, tr *vhlib.Trace, r *vhlib.Rand, n int) {
 	w.doReclaim(w.someHeight(r))
 }
 
+// genBig: one volume with more slots than sqlSectorBatchSize (256) so that expiry, prune and forced
+// removal take several batches (several transactions with a sleep in between).
+func genBig(t *testing.T, tr *vhlib.Trace, r *vhlib.Rand) {
+	w := newWorld(t, tr, "meta", 0)
+	defer w.close()
+	tr.Line("reset mode=meta cache=0", "")
+	slots := 270 + r.Intn(60)
+	id := w.doAddVol(false)
+	w.doAvail(id, true)
+	w.doGrow(id, uint64(slots))
+	w.doAddC1(1, 50, 5)
+	w.doAddC2(1, 50, 5)
+	n := slots - r.Intn(8)
+	for k := 0; k < n; k++ {
+		w.doStore(k, false)
+	}
+	var v1, v2 []int
+	for k := 0; k < n; k += 25 {
+		var l [][2]uint64
+		for j := k; j < k+25 && j < n; j++ {
+			l = append(l, [2]uint64{uint64(j), 10})
+		}
+		w.doTemps(l)
+	}
+	for k := 0; k < 12; k++ {
+		v1 = append(v1, r.Intn(n))
+	}
+	var chs []string
+	for _, k := range v1 {
+		chs = append(chs, fmt.Sprintf("a%d", k))
+	}
+	w.doRevise1(1, chs)
+	for k := 0; k < 12; k++ {
+		v2 = append(v2, r.Intn(n))
+	}
+	w.doRevise2(1, v2)
+	w.doExpire("expiret", 10) // > 256 rows: two batches
+	w.doTick()
+	w.doPrune() // > 256 slots cleared: two batches
+	w.doStore(n+1, false)
+	w.doRmVol(id, true) // > 256 slot rows: two batches, some occupied (lost)
+}
+
 // genData: operation sequence on the real VolumeManager with volume files. The
 // generator plays a well-behaved RPC layer: a root is referenced (contract
 // append, temp storage) only after its Write was acknowledged and Sync returned,
@@ -624,6 +667,9 @@ func TestEngine(t *testing.T) {
 	r0 := vhlib.NewRand(cfg.Seed)
 	r0.Uint64()
 	r := vhlib.NewRand(r0.Uint64() ^ (cfg.Seed * 0xD6E8FEB86659FD93))
+	if mode != "data" && (cfg.Tier == "thorough" || cfg.Extra["big"] == "1") {
+		genBig(t, tr, r)
+	}
 	for i := 0; i < cfg.N; i++ {
 		switch {
 		case mode == "data":
